@@ -54,11 +54,16 @@ Definition ht_bucket : Type := option (list ht_entry).
 Definition hts_get (k : K) (m : list ht_entry) : option ht_entry :=
   find (fun e => keq k (fst e)) m.
 
-Fixpoint hts_replace (e : ht_entry) (m : list ht_entry) : list ht_entry :=
+(* apply f to the first binding whose key matches k *)
+Fixpoint hts_update (k : K) (f : ht_entry -> ht_entry) (m : list ht_entry) : list ht_entry :=
   match m with
   | [] => []
-  | x :: r => if keq (fst e) (fst x) then e :: r else x :: hts_replace e r
+  | x :: r => if keq k (fst x) then f x :: r else x :: hts_update k f r
   end.
+
+(* overwrite the binding of e's key by e (ares_llist_node_replace on the node found) *)
+Definition hts_replace (e : ht_entry) (m : list ht_entry) : list ht_entry :=
+  hts_update (fst e) (fun _ => e) m.
 
 Fixpoint hts_remove (k : K) (m : list ht_entry) : list ht_entry :=
   match m with
@@ -211,41 +216,57 @@ Inductive ht_ins_result :=
 Definition ht_with_buckets (h : ht) (bs : list ht_bucket) : ht :=
   mkHt (ht_seed h) (ht_size h) (ht_num_keys h) (ht_num_collisions h) bs.
 
+(* num_keys + 1 > (size * ARES__HTABLE_EXPAND_PERCENT) / 100, size an unsigned int *)
+Definition ht_should_expand (h : ht) : bool :=
+  Z.ltb ((Z.of_nat (ht_size h) * ARES__HTABLE_EXPAND_PERCENT) mod 2 ^ 32 / 100)
+        (Z.of_nat (ht_num_keys h) + 1).
+
+(* allocation requests ares_htable_expand makes when all succeed: the new bucket array, the
+   prealloc_llist array (only when num_collisions > 0), num_collisions lists *)
+Definition ht_expand_requests (h : ht) : nat :=
+  if Z.eqb (Z.of_nat (ht_size h)) ARES__HTABLE_MAX_BUCKETS then 0
+  else 1 + (if Nat.eqb (ht_num_collisions h) 0 then 0 else 1) + ht_num_collisions h.
+
+(* the part of ares_htable_insert after the growth check: lazily allocate the list of
+   buckets[idx], allocate the node, link it first, update the counters *)
+Definition ht_insert_at (o : list bool) (h : ht) (idx : nat) (e : ht_entry)
+  : outcome (ht * ht_ins_result) :=
+  do b <- ht_bucket_at (ht_buckets h) idx;
+  (* lazily allocate the linked list *)
+  let '(l, ok2, o2) := match b with
+                       | Some l => (l, true, o)
+                       | None => let (ok, o') := ht_alloc o in ([], ok, o')
+                       end in
+  if negb ok2 then Ok (h, HtFailed) else
+  (* ares_llist_insert_first: the node *)
+  let (ok3, _) := ht_alloc o2 in
+  if negb ok3 then Ok (ht_with_buckets h (ht_set_bucket (ht_buckets h) idx (Some l)), HtFailed)
+  else
+    let l' := e :: l in
+    Ok (mkHt (ht_seed h) (ht_size h) (S (ht_num_keys h))
+             (if Nat.ltb 1 (length l') then S (ht_num_collisions h) else ht_num_collisions h)
+             (ht_set_bucket (ht_buckets h) idx (Some l')),
+        HtInserted).
+
 Definition ht_insert (o : list bool) (h : ht) (e : ht_entry) : outcome (ht * ht_ins_result) :=
   let key := fst e in
   let idx := ht_idx (ht_size h) (ht_seed h) key in
   do found <- ht_find h idx key;
   match found with
   | Some old =>
-    (* ares_llist_node_replace *)
+    (* ares_llist_node_replace: bucket_free(old), node->data = bucket *)
     do b <- ht_bucket_at (ht_buckets h) idx;
     Ok (ht_with_buckets h (ht_set_bucket (ht_buckets h) idx (Some (hts_replace e (ht_nodes b)))),
         HtReplaced old)
   | None =>
-    do x <- (if Z.ltb ((Z.of_nat (ht_size h) * ARES__HTABLE_EXPAND_PERCENT) mod 2 ^ 32 / 100)
-                      (Z.of_nat (ht_num_keys h) + 1)
-             then do y <- ht_expand o h;
-                  Ok (fst (fst y), snd (fst y), snd y,
-                      ht_idx (ht_size (fst (fst y))) (ht_seed (fst (fst y))) key)
-             else Ok (h, true, o, idx));
-    let '(h1, grown_ok, o1, idx1) := x in
-    if negb grown_ok then Ok (h1, HtFailed) else
-    do b <- ht_bucket_at (ht_buckets h1) idx1;
-    (* lazily allocate the linked list *)
-    let '(l, ok2, o2) := match b with
-                         | Some l => (l, true, o1)
-                         | None => let (ok, o') := ht_alloc o1 in ([], ok, o')
-                         end in
-    if negb ok2 then Ok (h1, HtFailed) else
-    (* ares_llist_insert_first: the node *)
-    let (ok3, _) := ht_alloc o2 in
-    if negb ok3 then Ok (ht_with_buckets h1 (ht_set_bucket (ht_buckets h1) idx1 (Some l)), HtFailed)
-    else
-      let l' := e :: l in
-      Ok (mkHt (ht_seed h1) (ht_size h1) (S (ht_num_keys h1))
-               (if Nat.ltb 1 (length l') then S (ht_num_collisions h1) else ht_num_collisions h1)
-               (ht_set_bucket (ht_buckets h1) idx1 (Some l')),
-          HtInserted)
+    if ht_should_expand h
+    then
+      do y <- ht_expand o h;
+      let '(h1, grown_ok, o1) := y in
+      if negb grown_ok then Ok (h1, HtFailed)
+      else (* expanded: calculate a new index *)
+        ht_insert_at o1 h1 (ht_idx (ht_size h1) (ht_seed h1) key) e
+    else ht_insert_at o h idx e
   end.
 
 (* ares_htable_get: the stored entry *)
@@ -297,12 +318,11 @@ Definition ht_destroy (h : ht) : outcome (list ht_entry) :=
 Definition ht_set_val (h : ht) (k : K) (v : V) : outcome ht :=
   let idx := ht_idx (ht_size h) (ht_seed h) k in
   do b <- ht_bucket_at (ht_buckets h) idx;
-  match hts_get k (ht_nodes b) with
-  | None => Ok h
-  | Some old =>
-    Ok (ht_with_buckets h (ht_set_bucket (ht_buckets h) idx
-                             (Some (hts_replace (fst old, v) (ht_nodes b)))))
-  end.
+  Ok (ht_with_buckets h (ht_set_bucket (ht_buckets h) idx
+                           (match b with
+                            | None => None
+                            | Some l => Some (hts_update k (fun x => (fst x, v)) l)
+                            end))).
 
 (* ---------------------------------------------------------------------------------- *)
 (* Operation sequences                                                                 *)
